@@ -687,7 +687,7 @@ def conformance(prop, unit_names, pins_changed, labels_props):
                 out.append(dict(oid='tokens/%s/%s' % (fn_, label), msg='contract clause fails on the real code for a concrete input (probe tokens-steps)',
                                 where=REPO + '/src/jobserver.rs:' + fn_, site=None, text=hits[0]['clause'], rendered=json.dumps(hits[:6], indent=1),
                                 inputs=[h['input'] for h in hits], fn=fn_, label=label, props=props))
-    if ('sched' in unit_names or 'locks' in unit_names) and prop in ('C06', 'C07', 'C01', 'C02', 'C11'):
+    if ('sched' in unit_names or 'locks' in unit_names) and prop in ('C06', 'C07', 'C01', 'C02', 'C11', 'C16'):
         r = _contend_failures()
         for h in (r[0] if r else []):
             if (h['prop'] == 'C06') == (prop in ('C06', 'C07')):
@@ -774,7 +774,7 @@ def bounded(prop, unit_names, labels_props):
     if os.environ.get('VERIF_TIER_EFFECTIVE') == 'thorough':
         # every targeted probe on the real binaries that speaks about this property, then the recorded histories
         extra = []
-        if prop in ('C06', 'C07', 'C01', 'C02', 'C11'):
+        if prop in ('C06', 'C07', 'C01', 'C02', 'C11', 'C16'):
             extra.append(('contend', _contend_failures, 'sched/run_body/run.start_holds_kernel_lock' if prop in ('C06', 'C07') else 'sched/run_body/run.record_read_under_lock',
                           lambda h: (h.get('prop') == 'C06') == (prop in ('C06', 'C07'))))
         if prop == 'C08':
